@@ -97,6 +97,13 @@ def alterations(tier: str, sealed_len: int, body_len: int, sign: bool) -> t.List
         for body in ("genuine", "evil-other"):
             for sigkind in ("junk", "kept"):
                 alts.append((f"forged:level{level}:{body}:{sigkind}", ("forged", level, body, sigkind)))
+                for aty in (0, 9, 16, 255):  # ... and another authentication service (0 = none)
+                    alts.append((f"forged:level{level}:{body}:{sigkind}:type{aty}", ("forged", level, body, sigkind, aty)))
+    # trailer-less replies whose 16-bit auth_length is not 0 but has the top bit set / is maximal, followed by 0..16 stray octets
+    for av in (0x7FFF, 0x8000, 0x8001) + tuple(range(0xFFF0, 0x10000)):
+        for tail in range(0, 17):
+            for body in ("evil-other",) + (("genuine",) if tail in (0, 7, 8) else ()):
+                alts.append((f"authlen{av:#x}:tail{tail}:{body}", ("authlen", av, tail, body)))
     for fl in range(256):
         if fl != 3:
             alts.append((f"notrailer-flags{fl:#04x}", ("notrailer-flags", fl, "genuine" if fl % 2 else "evil-other")))
@@ -126,14 +133,23 @@ def apply(desc, sealed: bytes, info: dict, st: dict, op: str, sd: bytes) -> byte
         b = bytearray(sealed)
         b[desc[1] // 8] ^= 1 << (desc[1] % 8)
         return bytes(b)
+    if k == "authlen":
+        _, av, tail, which = desc
+        body = info["plain_stub"] if which == "genuine" else evil_stub(st, "other", op, sd)
+        out = bytearray(strip_trailer(sealed, info, body) + bytes(range(1, tail + 1)))
+        out[8:10] = struct.pack("<H", len(out))
+        out[10:12] = struct.pack("<H", av)
+        return bytes(out)
     if k == "forged":
-        _, level, which, sigkind = desc
+        level, which, sigkind = desc[1:4]
         body = info["body"] if which == "genuine" else evil_stub(st, "other", op, sd)
         body = body + b"\x00" * (-len(body) % 16)
         pad = len(body) - (len(info["plain_stub"]) if which == "genuine" else len(evil_stub(st, "other", op, sd)))
         trailer = bytearray(info["trailer"])
         trailer[1] = level
         trailer[2] = pad
+        if len(desc) > 4:
+            trailer[0] = desc[4]
         sig = sealed[-info["sig_len"] :] if sigkind == "kept" else bytes(range(1, info["sig_len"] + 1))
         hdr = bytearray(sealed[:24])
         hdr[16:20] = struct.pack("<I", len(body))
@@ -251,7 +267,7 @@ def judge(seed: int, op: str, api: str, sign: bool, name: str, desc, acc) -> Non
         acc.violate("harness.reply-not-reached", case, {"status": status, "value": repr(v)[:200]})
         return
     acc.nt(("alt", op, api, sign, name))
-    unsealed = desc is not None and desc[0] in ("notrailer", "notrailer-callid", "notrailer-flags", "forged")
+    unsealed = desc is not None and desc[0] in ("notrailer", "notrailer-callid", "notrailer-flags", "forged", "authlen")
     if status == "spin":
         acc.violate("spin", case, {"detail": v})
         return
@@ -419,7 +435,7 @@ def run_rpc_level(seed: int, api: str, sign: bool, desc, name: str, acc) -> None
         acc.violate("rpc.signed-header-or-trailer-alteration-accepted", case, {"alteration": name, "byte_offset": touched, "region": "header" if touched < 24 else "security trailer"}, size=len(name))
     elif bytes(r.stub_data) != sealed_plain:
         acc.violate("rpc.stub-differs-from-sealed-plaintext", case, {"returned_len": len(r.stub_data), "sealed_len": len(sealed_plain), "returned_head": bytes(r.stub_data)[:24].hex(), "sealed_head": sealed_plain[:24].hex()}, size=len(name))
-    elif desc is not None and desc[0] in ("notrailer", "notrailer-callid", "notrailer-flags", "forged"):
+    elif desc is not None and desc[0] in ("notrailer", "notrailer-callid", "notrailer-flags", "forged", "authlen"):
         acc.violate("rpc.unsealed-accepted", case, {"alteration": name}, size=len(name))
     elif sign and (r.sec_trailer is None or r.sec_trailer.pad_length != seen["info"]["pad"]):
         # only with header signing is the trailer (and its pad_length) protected; without it the property does not demand rejection
